@@ -68,7 +68,12 @@ def run_case(ri):
     elif r['others'] == 'huge':
         alt[mask] = 1e16                        # x + h == x for every generated step there
     else:
-        alt[mask] = -0.45                       # sqrt(x + 0.5) is NaN there for steps above 0.05
+        # the target (and the unaltered array) stay inside the domain for EVERY generated step, the altered neighbours do not:
+        # sqrt(x + 0.5) is NaN there for steps above 0.05 - a neighbour without a single finite estimate, or with some
+        # non-finite rows, must not change how the target's own (all finite) table is extrapolated
+        vals = vals + 3.25
+        alt = vals.copy()
+        alt[mask] = -0.45
     probs = []
     try:
         with np.errstate(all='ignore'):
@@ -115,13 +120,16 @@ def run_case(ri):
         if not abs(at(v1) - float(v3)) <= 10 * est + 1e-12 * abs(float(v3)):
             probs.append('scalar: element %s in the array gives %r, alone %r, beyond the error estimates' % (pos, at(v1), float(v3)))
     # one object, same x, different extra arguments: each call must equal a fresh object's call
-    g = lambda z, s=1.0, t=0.0: fun(z) * s + t
+    g = lambda z, s=1.0, t=0.0: fun(z) * s * (1.0 + t)          # s = 2, t = 1: every value of f is multiplied by exactly 4 (a power of two: the whole computation scales exactly)
     try:
         with np.errstate(all='ignore'):
             dd = nd.Derivative(g, n=r['n'], method=r['m'], order=r['o'], full_output=True)
             xx = np.array(vals).reshape(shape)
             a1 = dd(xx, 2.0, t=1.0)
             keep1 = np.array(a1[0], copy=True)
+            base_ = nd.Derivative(fun, n=r['n'], method=r['m'], order=r['o'], full_output=True)(xx)
+            if not np.array_equal(np.asarray(a1[0]), 4.0 * np.asarray(base_[0]), equal_nan=True):
+                probs.append('args: with s=2.0 and the keyword t=1.0 (f multiplied by exactly 4) the result is %r, 4 * the result for f = %r' % (np.ravel(a1[0])[:3].tolist(), (4.0 * np.ravel(base_[0]))[:3].tolist()))
             a2 = dd(xx, -0.5)
             if not np.array_equal(np.asarray(a1[0]), keep1, equal_nan=True):
                 probs.append('args: the array returned by the first call was changed by the second call of the same object')
